@@ -187,8 +187,9 @@ Definition single_elect (cfg : stv_cfg) (t : Q) (p : profile) (prev : estate)
 
 Definition empty_profile : profile := mkProfile [] [].
 
-(* One _run_step.  [n_elected] is len of self.get_elected() flattened AS SEEN BY THE OBJECT:
-   during the run, the candidates elected so far; during a get_profile replay, the final count.
+(* One _run_step.  [n_elected] is the number of candidates elected up to the previous round
+   (self.get_elected(prev_state.round_number), after the repair recorded in known_findings.json;
+   the original consulted the FINAL winners, which broke get_profile replays).
    [p0] is the initial profile (used by the elimination tiebreak). *)
 Definition stv_step (cfg : stv_cfg) (t : Q) (p0 : profile) (n_elected : Z)
            (p : profile) (prev : estate) : M (profile * estate) :=
